@@ -159,6 +159,27 @@ def build (I : CNInst) : Ilp CVar where
     I.rows.map (fun rc => (I.prof.cnFit / I.nU, CVar.ABSEG rc.1)) ++
     I.slots.map (fun s => (I.prof.cnParsimony * I.penalty s.name, sv s))
 
+/-! ### spec level: the documented score of a selection of structure slots -/
+
+def absC (x : Rat) : Rat := if x < 0 then -x else x
+
+/-- gene-fit residual of a region under the selection `σ` of slots -/
+def fitErr (I : CNInst) (σ : CVar → Rat) (rc : String × (Rat × Rat)) : Rat :=
+  rc.2.1 - evalTerms σ (I.geneTerms rc.1)
+
+/-- scaled gene-minus-pseudogene residual of a region -/
+def diffErr (I : CNInst) (σ : CVar → Rat) (rc : String × (Rat × Rat)) : Rat :=
+  (rc.2.1 - rc.2.2) / scaleOf rc.2.1 rc.2.2 - evalTerms σ (I.diffTerms rc.1 (scaleOf rc.2.1 rc.2.2))
+
+def rowWeight (I : CNInst) (r : String) : Rat :=
+  I.prof.cnDiff / I.nU * (if (CVar.E r).name == Const.CN_PCE_VAR then I.prof.cnPcePenalty else 1)
+
+/-- **the documented score** of a selection of slots (reads `σ` on slot selectors only) -/
+def specCN (I : CNInst) (σ : CVar → Rat) : Rat :=
+  (I.rows.map fun rc => I.rowWeight rc.1 * absC (I.diffErr σ rc)).sum +
+  (I.rows.map fun rc => I.prof.cnFit / I.nU * absC (I.fitErr σ rc)).sum +
+  (I.slots.map fun s => I.prof.cnParsimony * I.penalty s.name * σ (sv s)).sum
+
 end CNInst
 
 /-! ### Fold of yielded assignments -/
